@@ -289,7 +289,7 @@ func init() {
 			return s
 		},
 		Run:  c11Run,
-		Rule: "data graph of depth 3 from a struct/map/slice/pointer type family (repeated field names at several depths, prefix names Kids/KidsX, value- and pointer-receiver methods returning leaves/structs/slices, every leaf string spelling its own Go path); from 7 roots (struct value, pointer, slices and a leaf under names that are also field names, a map) every walk of the type graph of <=L steps (field, index, map key, method call) ending at a string leaf, with indexes/keys spelled as literals, variables, i+0 expressions and variables named like fields; each used in an output tag, through let, and (for walks through a slice) as loop iterable with the tail applied to the loop variable. Expected value = Go navigation by reflection. Every walk prefix is also extended by one uncompletable step (missing key, nil pointer then member/method, index 9 / -1 via variable, unknown field/method, unexported field). Oracle: completable => exactly the leaf, or an error; never another value, never empty without error. Uncompletable => error or empty output, never a leaf, never a panic. Non-trivial: walks with >=2 steps.",
+		Rule: "data graph of depth 3 from a struct/map/slice/pointer type family (repeated field names at several depths, prefix names Kids/KidsX, value- and pointer-receiver methods returning leaves/structs/slices, every leaf string spelling its own Go path); from 7 roots (struct value, pointer, slices and a leaf under names that are also field names, a map) every walk of the type graph of <=L steps (field, index, map key, method call) ending at a string leaf, with indexes/keys spelled as literals, variables, i+0 expressions and variables named like fields; each used in an output tag, through let, and (for walks through a slice) as loop iterable with the tail applied to the loop variable. Expected value = Go navigation by reflection. Every walk prefix is also extended by one uncompletable step (missing key, nil pointer then member/method, index 9 / -1 via variable, unknown field/method, unexported field), alone and followed by a further .Field / .Field[0] / .Method() continuation. Oracle: completable => exactly the leaf, or an error; never another value, never empty without error. Uncompletable => error or empty output, never a leaf, never a panic. Non-trivial: walks with >=2 steps.",
 		Bound: func(th bool) string {
 			if th {
 				return "walk length <=7"
@@ -323,6 +323,10 @@ func c11Run(t *engine.T, shard string) {
 		// uncompletable continuations
 		for _, bs := range b {
 			c11Bad(t, rs, append(steps[:len(steps):len(steps)], bs))
+			// ... and the path continuing after the step that cannot be completed
+			c11Bad(t, rs, append(steps[:len(steps):len(steps)], bs, c11Step{kind: "field", name: "Name"}))
+			c11Bad(t, rs, append(steps[:len(steps):len(steps)], bs, c11Step{kind: "field", name: "Tags"}, c11Step{kind: "index", idx: 0}))
+			c11Bad(t, rs, append(steps[:len(steps):len(steps)], bs, c11Step{kind: "call", name: "Title"}))
 		}
 		// nil pointer field then member / method
 		if cur.Kind() == reflect.Struct || (cur.Kind() == reflect.Ptr && !cur.IsNil() && cur.Elem().Kind() == reflect.Struct) {
